@@ -1,8 +1,9 @@
 #!/bin/sh
 # usage: tools/ref1.sh R7 5 [Cnn ...]  -> applies /tmp/seed/R7/SEED/refactor5.diff to a scratch copy and runs the given checks (default all)
 r=$1; k=$2; shift 2
+src=/tmp/seed/$r/SEED/refactor$k.diff; [ -f "$src" ] || src=/verif/refactorings/$r/refactor$k.diff
 d=/tmp/sv/$r-$k
-rm -rf $d; mkdir -p $d; git -C /repo archive HEAD | tar -x -C $d; (cd $d && patch -p1 -s < /tmp/seed/$r/SEED/refactor$k.diff) || exit 3
+rm -rf $d; mkdir -p $d; git -C /repo archive HEAD | tar -x -C $d; (cd $d && patch -p1 -s < $src) || exit 3
 ids="$@"; [ -z "$ids" ] && ids="C01 C02 C03 C04 C05 C06 C07 C08 C09 C10 C11 C12 C13 C14 C15 C16 C17 C18 C19 C20"
 for c in $ids; do /verif/vcheck $c --repo $d --no-selftest --no-evidence | grep -E ": R-|ANALY" | cut -c1-${W:-420} | sed "s/^/$c /"; done
 [ -n "$KEEP" ] || rm -rf $d
